@@ -12,3 +12,4 @@ def run(ck):
     geometry.r2_raw_writers_bounded(ck, P)
     traps.r7_edge_clamps(ck, P)
     sampling.r11_rounding_epsilon(ck, P)
+    sampling.r12_wrap_is_a_loop(ck, P)
